@@ -1,6 +1,7 @@
 // (inside verus!, after archive_io_env.rs and archive_checksum_spec.rs) Vocabulary of the units on the WRITING side of a backup
 // (backup_archive_write proves the writer helpers on their real bodies, backup_create sees them through //@stub).
 //@assume source files do not change during ONE call of write_backup_archive (`file_bytes(path)` is a function of the path, as in prelude/archive_io_env.rs); the (size, mtime) fingerprint taken before and re-checked after the copy is the code's own detector for violations of this assumption; that equal fingerprints imply unchanged content is NOT modelled
+//@trusted `<&str as Into<String>>::into` yields a String with the same characters (owned_str); the String and PathBuf instances are the identity
 //@trusted String::as_bytes is the UTF-8 encoding str_bytes(s) (uninterpreted) with String::from_utf8(s.as_bytes()) == Ok(s): utf8_valid(str_bytes(s)) and utf8(str_bytes(s)) == s (axiom_str_bytes_roundtrip)
 //@item engine/src/backup.rs enum ArchiveEntrySource
 //@end
@@ -9,6 +10,27 @@
 //@item engine/src/backup.rs struct SourceFingerprint
 //@ derive Debug, Clone, Copy, PartialEq, Eq, Structural
 //@end
+
+// the engine's `impl Into<String>` / `impl Into<PathBuf>` parameters, kept as written: a local trait of the same name with the
+// instances the callers use (String, &str -> String; PathBuf -> PathBuf)
+pub uninterp spec fn owned_str(s: Seq<char>) -> String;
+#[verifier::external_body] pub broadcast proof fn axiom_owned_str(s: Seq<char>) ensures #[trigger] owned_str(s)@ == s {}
+pub trait Into<T>: Sized {
+    spec fn into_spec(self) -> T;
+    fn into(self) -> (r: T) ensures r == self.into_spec();
+}
+impl Into<String> for String {
+    open spec fn into_spec(self) -> String { self }
+    fn into(self) -> (r: String) { self }
+}
+impl<'a> Into<String> for &'a str {
+    open spec fn into_spec(self) -> String { owned_str(self@) }
+    #[verifier::external_body] fn into(self) -> (r: String) { unimplemented!() }
+}
+impl Into<Path> for Path {
+    open spec fn into_spec(self) -> Path { self }
+    fn into(self) -> (r: Path) { self }
+}
 
 pub uninterp spec fn str_bytes(s: Seq<char>) -> Seq<u8>;
 #[verifier::external_body] pub broadcast proof fn axiom_str_bytes_roundtrip(s: Seq<char>)
